@@ -439,7 +439,7 @@ Proof.
     + apply fb_push; [exact F2|]. unfold tnH1; cbn [snd]. exact Ht.
 Qed.
 
-Lemma aot_single a b : (a <= b)%N -> aot_nest [Some (a, b)] (Some (a, b)) = true.
+Lemma aot_single a b : (a <= b)%N -> aot_nest (@cons ospan (Some (a, b)) nil) (Some (a, b)) = true.
 Proof. intro H. cbn [aot_nest forallb osp_in]. rewrite N.eqb_refl, (sp_in_pair a b a b) by lia. reflexivity. Qed.
 
 (* the finished table (span (a, b), b <= p) joins an array of tables whose span ends at or before a *)
@@ -481,7 +481,7 @@ Proof.
     rewrite tnestH_set_items. apply andb_true_iff. split.
     + eapply tflags_keep; [exact F1'|]. intro Nv. apply no_values_push; [exact Nv|reflexivity].
     + apply fb_push; [exact F2'|]. unfold tnH1; cbn [snd]. rewrite S. cbn [union_span fst snd map forallb].
-      rewrite S, Hd, Ht. cbn [negb andb]. idtac "GOAL". match goal with |- ?G => idtac G end. rewrite (aot_single a b Hab). unfold aot_end_ok; cbn [snd andb].
+      rewrite S, Hd, Ht. cbn [negb andb]. rewrite (aot_single a b Hab). unfold aot_end_ok; cbn [snd andb].
       rewrite andb_true_r. lia.
 Qed.
 
